@@ -54,7 +54,8 @@ Flush(o, t) == IF t # <<>> /\ IsT(Head(t)) THEN Flush(Append(o, Head(t).tx), Tai
 
 Lab(k) == "L" \o ToString(k)
 
-IntLeaf  == <<"i", "j", "p", "7", "c", "sh", "(int)u", "a[1]", "*pp", "s.m", "b.bf", "sp.c[1]", "(int)sizeof vla", "0", "(-1)", "(int)b.lf">>
+IntLeaf  == <<"i", "j", "p", "7", "c", "sh", "(int)u", "a[1]", "*pp", "s.m", "b.bf", "sp.c[1]", "(int)sizeof vla", "0", "(-1)", "(int)b.lf",
+             "o.in.m", "un.i", "st", "al", "str[1]", "__func__[0]", "(int)sizeof(struct O)", "o.h", "o.u.c">>
 LongLeaf == <<"l", "lp", "(long)pp", "5000000000", "s.n", "b.lf">>
 DblLeaf  == <<"d", "dp", "1.5", "fl", "0.0", "(double)u", "(double)(unsigned long)l", "(float)u">>
 CondLeaf == <<"i", "d", "l", "pp", "fl", "c", "sh", "u", "b.ub", "1", "0">>
@@ -106,7 +107,10 @@ Rhs(sym) ==
                        <<"(int)", D>>, <<"(int)", L>>, <<"(int)(unsigned)", D>>, <<"(int)(unsigned long)", D>>, <<"(int)(unsigned)fl">>, <<"a[", I, "& 3]">>, <<"(b.ub =", I, ")">>, <<"(b.bf +=", I, ")">>,
                        <<"gs(", I, ").m">>, <<"(", L, "<", L, ")">>, <<"(", D, ">=", D, ")">>, <<"(pp == 0)">>,
                        <<"(int[2]){", I, ", 2}[1]">>, <<"fp(", I, ")">>, <<"(c =", I, ")">>, <<"-", I>>, <<"~", I>>,
-                       <<"(", C, "? i : j)">>, <<"(sh ?", I, ":", I, ")">> >>
+                       <<"(", C, "? i : j)">>, <<"(sh ?", I, ":", I, ")">>,
+                       <<"fs(s)">>, <<"fo(o)">>, <<"gso(", I, ").in.m">>, <<"fs(gs(", I, "))">>, <<"(st +=", I, ")">>,
+                       <<"(*(int *)__builtin_alloca((", I, "& 15) | 4) =", I, ")">>, <<"vf2(", I, ",", L, ", \"s\",", D, ")">>,
+                       <<"(", C, "? s : s2).m">>, <<"(al ^=", I, ")">>, <<"(pp != &a[", I, "& 3])">> >>
                  \o (IF NoretArm THEN << <<"(", C, "? (die(),", I, ") :", I, ")">>, <<"(", C, "?", I, ": (die(),", I, "))">> >> ELSE <<>>))
        [] sym.nt = "L" ->
             Each(LongLeaf, LAMBDA x : <<x>>)
@@ -125,7 +129,8 @@ Rhs(sym) ==
             \o (IF Leaf THEN <<>> ELSE << <<I>>, <<D>>, <<L>>, <<"(", I, "<", I, ")">>, <<"(", C, "&&", C, ")">>, <<"(", C, "||", C, ")">> >>)
        [] sym.nt = "E" ->
             << <<"i++">>, <<"s2 = s">>, <<"s = sp">>, <<"(void)0">> >>
-            \o (IF Leaf THEN <<>> ELSE << <<I>>, <<D>>, <<L>>, <<"(void)", I>>, <<"s = gs(", I, ")">>, <<"vla[0] =", I>>, <<"*pp =", I>>, <<"s.n =", L>> >>)
+            \o (IF Leaf THEN <<>> ELSE << <<I>>, <<D>>, <<L>>, <<"(void)", I>>, <<"s = gs(", I, ")">>, <<"vla[0] =", I>>, <<"*pp =", I>>, <<"s.n =", L>>,
+                                              <<"o = gso(", I, ")">>, <<"un.d =", D>>, <<"o.u = un">>, <<"o.in = s">>, <<"str[2] = (char)", I>> >>)
        [] sym.nt = "B" ->
             IF Leaf THEN << <<S>> >> ELSE << <<S>>, <<S, S>>, <<S, S, S>>, <<S, B>> >>
        [] sym.nt = "S" ->
@@ -178,7 +183,7 @@ Switch ==
   /\ \E shape \in 1..3 :
        LET id == swn + 1
            S1 == "@S"
-       IN ExpandCtx(<<"switch (", "@I", ") {">>
+       IN ExpandCtx(<<"switch (", (IF shape = 2 THEN "@L" ELSE "@I"), ") {">>
                  \o (CASE shape = 1 -> <<S1, S1>>               \* statements; case labels come from the Case production
                        [] shape = 2 -> <<S1, S1, S1, S1>>
                        [] shape = 3 -> <<"{", S1, S1, "}", S1>>)
